@@ -4,7 +4,9 @@
 //! with the `SdsWithExpiry` it returned at the previous evaluation; at every `evaluate` its result
 //! is compared, per component, with R-expiry (reference::expiry_fixpoint: naive (max,min) fixpoint
 //! over the alive annotated facts, seeds `event_time + alpha`, static = infinity) and with the real
-//! `naive_sds_plus`.
+//! `naive_sds_plus`; the external view `sds_with_expiry_to_external(result, all_component_iris(sds))`
+//! — the read path `rsp_engine::emit_cross_window_results` uses on the maintained state — must show
+//! the same fact sets per component.
 //!
 //! History alphabet: arrive(w,t) for 2 windows x 3 triples (the listing of t in w gets the
 //! current time; a triple is listed once), tick (now += 1; listings with time + alpha <= now are
@@ -24,13 +26,15 @@
 //! from the table of (component, local name) pairs it generated, never by splitting strings).
 //!
 //! Searches per configuration:
-//!  (1) BFS from the empty history at start time 0 (depth 6 / 9), de-duplicated;
-//!  (2) a plain tree search from the empty history at start time 0 (depth 4 / 6), no de-duplication;
+//!  (1) BFS from the empty history at start time 0 (depth 6 / 9, thorough 8 for the configurations
+//!      added after the first round), de-duplicated;
+//!  (2) a plain tree search from the empty history at start time 0 (depth 4 / 6, resp. 5), no
+//!      de-duplication;
 //!  (3) seeded searches: 8 fixed prefixes (histories with one to three evaluations: carried alive
 //!      facts, an evaluated renewal, full windows, renewal followed by total expiry, staggered
 //!      ages, three incremental evaluations, re-derivation after total expiry, partial renewal)
 //!      are executed on the real code at a start time of 1000 or 2^40 (every evaluation of the
-//!      prefix is checked too), then a de-duplicated BFS (depth 3 / 5) and an undeduplicated tree
+//!      prefix is checked too), then a de-duplicated BFS (depth 3 / 4) and an undeduplicated tree
 //!      (depth 3 / 4) continue from the reached state. The quick tier thereby reaches third and
 //!      fourth evaluations after renew -> expire -> re-derive, and the time-shift assumption of the
 //!      de-duplication is exercised at three absolute start times.
@@ -73,7 +77,7 @@ use std::sync::{Arc, RwLock};
 pub const DEF: PropDef = PropDef {
     id: "C12",
     level: "model_checking",
-    rule: "per configuration (rule set in {copy, join, chain, trans, transdag, static, xwin, wrec, tri [3-premise rules over w1,w2,w1 and w1,w2,static], twohead [one rule with two conclusions, one of them INTO window w2, plus a join reading it], const [constants in premise and conclusion, a fully ground premise], loop [repeated variable w1:p(x,x), 2-cycle join]} x {IRIs prefix-free, alpha1,alpha2 in {2,3}, static graph empty/filled, eviction exact/one tick late: 16} + {prefix-free, alpha (1,4)/(4,1), static filled, eviction exact/late: 4} + {prefix-NESTED component IRIs http://w/ http://w/x/ http://w/sg/ http://w/x/out/, alpha (2,3)/(3,2), static filled, eviction exact/late: 4} = 12 x 24 = 288 configurations, each an independent search) histories of ops arrive(w,t) [2 windows x 3 triples (cycle a-p-b b-p-c c-p-a; a-p-b b-p-c a-p-c for transdag/wrec; a-p-a a-p-b b-p-a for twohead/loop); a listing keeps the latest arrival time], tick [now+=1, listings with time+alpha(+1 if late)<=now dropped], evaluate [real incremental_sds_plus with the SdsWithExpiry carried from the previous evaluate; only at a strictly later time than the previous evaluation], flush [max(alpha)+1(+1 if late) ticks; de-duplicated searches only]: (1) BFS from the empty history at start time 0 up to depth 6 (quick) / 9 (thorough), states de-duplicated on the full state relative to now (listing ages, complete carried map with expiry-now, evaluate-enabled); (2) plain tree search without any de-duplication from the empty history to depth 4 / 6; (3) 8 seeded prefixes per configuration (1-3 evaluations each: carried-alive, evaluated renewal, full windows, renewal then total expiry, staggered ages, three incremental evaluations, re-derivation after total expiry, partial renewal) executed at start time 1000 or 2^40 and continued by a de-duplicated BFS to depth 3 / 5 and by an undeduplicated tree to depth 3 / 4 (the two at different start times); every evaluate (also those inside the prefixes) compares fact sets and expiries per component with the (max,min) reference fixpoint over the alive annotated facts and the fact sets with the real naive_sds_plus; a fact filed under a component other than the one whose IRI + local name spells its predicate is a violation (per-component clause). evaluations = evaluate transitions executed on the real code (all searches + prefixes); states/transitions = the BFSs (1)+(3) (each BFS has its own seen set); non-trivial = BFS evaluate whose carried map has a fact still alive and whose expected result has a derived (non-seed) fact; distinct = distinct (configuration, relative pre-state); outcomes = distinct (configuration, relative result)",
+    rule: "per configuration (rule set in {copy, join, chain, trans, transdag, static, xwin, wrec, tri [3-premise rules over w1,w2,w1 and w1,w2,static], twohead [one rule with two conclusions, one of them INTO window w2, plus a join reading it], const [constants in premise and conclusion, a fully ground premise], loop [repeated variable w1:p(x,x), 2-cycle join]} x {IRIs prefix-free, alpha1,alpha2 in {2,3}, static graph empty/filled, eviction exact/one tick late: 16} + {prefix-free, alpha (1,4)/(4,1), static filled, eviction exact/late: 4} + {prefix-NESTED component IRIs http://w/ http://w/x/ http://w/sg/ http://w/x/out/, alpha (2,3)/(3,2), static filled, eviction exact/late: 4} = 12 x 24 = 288 configurations, each an independent search) histories of ops arrive(w,t) [2 windows x 3 triples (cycle a-p-b b-p-c c-p-a; a-p-b b-p-c a-p-c for transdag/wrec; a-p-a a-p-b b-p-a for twohead/loop); a listing keeps the latest arrival time], tick [now+=1, listings with time+alpha(+1 if late)<=now dropped], evaluate [real incremental_sds_plus with the SdsWithExpiry carried from the previous evaluate; only at a strictly later time than the previous evaluation], flush [max(alpha)+1(+1 if late) ticks; de-duplicated searches only]: (1) BFS from the empty history at start time 0 up to depth 6 (quick) / 9 (thorough; 8 for the 160 configurations that are not among the first 8 rule sets x prefix-free x alpha in {2,3}), states de-duplicated on the full state relative to now (listing ages, complete carried map with expiry-now, evaluate-enabled); (2) plain tree search without any de-duplication from the empty history to depth 4 / 6 (5 for those 160); (3) 8 seeded prefixes per configuration (1-3 evaluations each: carried-alive, evaluated renewal, full windows, renewal then total expiry, staggered ages, three incremental evaluations, re-derivation after total expiry, partial renewal) executed at start time 1000 or 2^40 and continued by a de-duplicated BFS to depth 3 / 4 and by an undeduplicated tree to depth 3 / 4 (the two at different start times); every evaluate (also those inside the prefixes) compares fact sets and expiries per component with the (max,min) reference fixpoint over the alive annotated facts and the fact sets with the real naive_sds_plus and with the RSP engine's read path of the maintained state, sds_with_expiry_to_external(result, all_component_iris(sds)); an empty static graph is declared without triples when alpha1=2 and not declared at all when alpha1=3 (what the engine's build_cross_window_sds does); a fact filed under a component other than the one whose IRI + local name spells its predicate is a violation (per-component clause). evaluations = evaluate transitions executed on the real code (all searches + prefixes); states/transitions = the BFSs (1)+(3) (each BFS has its own seen set); non-trivial = BFS evaluate whose carried map has a fact still alive and whose expected result has a derived (non-seed) fact; distinct = distinct (configuration, relative pre-state); outcomes = distinct (configuration, relative result)",
     assumptions: &[
         "universe: two windows and one static graph (triple b-k-c, for rule set tri b-k-c and c-k-a, or empty) and one output component; component IRIs either http://w1/ http://w2/ http://sg/ http://out/ or the prefix-nested http://w/ http://w/x/ http://w/sg/ http://w/x/out/; every component IRI ends in '/', local predicate names contain no '/', so an annotated predicate has exactly one reading (component, local name); entities a b c, arrival time = current time, start time 0, 1000 or 2^40; alpha in {1,2,3,4}",
         "alive <=> event_time + alpha > now (translate_sds_to_datalog); a window may keep an expired listing for one more tick (eviction=late) — the statement speaks about alive facts only, so such a listing must not contribute",
